@@ -97,6 +97,7 @@ struct Gen<'a> {
     tell: u32,
     /// (id, what the alias currently prints)
     aliases: Vec<(u32, String)>,
+    self_extending_used: bool,
     funcs: Vec<u32>,
     noglob: bool,
     v: String,
@@ -448,6 +449,16 @@ impl Gen<'_> {
                 u.lines.push(l);
                 u.out.push(format!("EA{id} {w}"));
             }
+            95 if !self.verbose && !self.self_extending_used => {
+                // a dot script that extends itself: it is read line by line
+                // while it runs, so the appended line is executed too
+                self.self_extending_used = true;
+                let mut l = ". /work/inc3.sh".to_string();
+                self.maybe_tell(&mut l, &mut u, 0);
+                u.lines.push(l);
+                u.out.push("IC original".into());
+                u.out.push("IC appended".into());
+            }
             93 if !self.verbose => {
                 // a dot script read line by line from its own descriptor; its
                 // `read` consumes the next line of the MAIN input
@@ -611,6 +622,7 @@ pub fn generate(rng: &mut Rng, tier: Tier) -> Case {
         word: 0,
         tell: 0,
         aliases: vec![],
+        self_extending_used: false,
         funcs: vec![],
         noglob: false,
         v: String::new(),
@@ -979,6 +991,11 @@ fn spec_of(exp: &Expect, variant: Variant) -> ScriptSpec {
                 0o644,
             ),
             ("/work/inc2.sh".into(), b"echo IB inc2\necho IB done\n".to_vec(), 0o644),
+            (
+                "/work/inc3.sh".into(),
+                b"echo 'echo IC appended' >>/work/inc3.sh\necho IC original\n".to_vec(),
+                0o644,
+            ),
         ],
         ..Default::default()
     }
